@@ -159,40 +159,41 @@ def triage(prop, engine, eng, viol_rows, seed, tier, minimise=True):
     """Group violations, match known findings, minimise the rest, write replays.
     Returns (lines, n_new, n_known, replay_paths)."""
     known = findings.load()
-    groups = collections.OrderedDict()
-    for row, v in sorted(viol_rows, key=lambda rv: rv[0]["seed"]):
-        facts = eng.where_facts(row.get("case"), v) if hasattr(eng, "where_facts") else {}
-        key = (v["signature"], jdigest(facts))
-        if key not in groups:
-            groups[key] = {"row": row, "v": v, "facts": facts, "count": 0}
-        groups[key]["count"] += 1
     lines = []
     n_new = 0
     n_known = 0
     printed_known = set()
     paths = []
-    new_groups = []
-    for key, gr in groups.items():
-        e = findings.match(prop, gr["v"]["signature"], gr["facts"], known)
+    groups = collections.OrderedDict()  # unknown violations, grouped by signature
+    for row, v in sorted(viol_rows, key=lambda rv: rv[0]["seed"]):
+        facts = eng.where_facts(row.get("case"), v) if hasattr(eng, "where_facts") else {}
+        e = findings.match(prop, v["signature"], facts, known)
         if e is not None:
-            n_known += gr["count"]
+            n_known += 1
             tag = e.get("id") or e.get("signature")
             if tag not in printed_known:
                 printed_known.add(tag)
-                lines.append("KNOWN-FINDING: property=%s %s [signature=%s, first seed=%d]" % (
-                    prop, e.get("what", ""), gr["v"]["signature"], gr["row"]["seed"]))
-        else:
-            new_groups.append(gr)
+                lines.append("KNOWN-FINDING: property=%s %s [id=%s, e.g. signature=%s, first seed=%d]" % (
+                    prop, e.get("what", ""), tag, v["signature"], row["seed"]))
+            continue
+        key = v["signature"]
+        if key not in groups:
+            groups[key] = {"row": row, "v": v, "facts": facts, "count": 0}
+        groups[key]["count"] += 1
+    new_groups = list(groups.values())
     os.makedirs(REPLAY_DIR, exist_ok=True)
-    for n, gr in enumerate(new_groups[:6]):
+    maxg = int(os.environ.get("VERIF_MAX_GROUPS", "6"))
+    mspecs = [{"mode": "minimise", "engine": engine, "case": gr["row"]["case"],
+               "signature": gr["v"]["signature"], "hash_seed": gr["row"]["_hash_seed"],
+               "budget_s": int(os.environ.get("VERIF_MINIMISE_S", "60"))} for gr in new_groups[:maxg]]
+    mouts = fleet.run_nodes(mspecs, timeout=400) if (minimise and mspecs) else []
+    for n, gr in enumerate(new_groups[:maxg]):
         row, v = gr["row"], gr["v"]
         case = row["case"]
         hs = row["_hash_seed"]
         mres = None
         if minimise:
-            out = fleet.spawn_node({"mode": "minimise", "engine": engine, "case": case,
-                                    "signature": v["signature"], "hash_seed": hs,
-                                    "budget_s": int(os.environ.get("VERIF_MINIMISE_S", "60"))}, timeout=400)
+            out = mouts[n]
             if out.get("ok") and out.get("reproduced"):
                 mres = out
         rcase = mres["case"] if mres else case
@@ -234,11 +235,11 @@ def triage(prop, engine, eng, viol_rows, seed, tier, minimise=True):
         n_new += gr["count"]
         lines.append("VIOLATION property=%s replay=%s" % (prop, path))
         lines.append("  signature=%s where=%s detail=%s" % (rviol["signature"], rviol.get("where"), (rviol.get("detail") or "")[:300]))
-    if len(new_groups) > 6:
-        for gr in new_groups[6:]:
+    if len(new_groups) > maxg:
+        for gr in new_groups[maxg:]:
             n_new += gr["count"]
         lines.append("(+%d further distinct violation groups not minimised: %s)" % (
-            len(new_groups) - 6, ", ".join(g["v"]["signature"] for g in new_groups[6:12])))
+            len(new_groups) - maxg, ", ".join(g["v"]["signature"] for g in new_groups[maxg:maxg + 8])))
     return lines, n_new, n_known, paths
 
 
